@@ -15,8 +15,8 @@ TEXT = {
          'Lean kernel (core only for C03, no Mathlib); compressed-key round trip carries the square-root hypothesis until linked with Proofs/Field; tie to C = differential testing of the hand-written model.'),
  'C04': ('Heap sort proved to return a sorted permutation for every length and every total preorder (fuel sufficiency included); key-algebra commutation proved under the group law; all 15+ API functions tied by correspondence incl. chains of mixed tweaks, cancelling combines, sort lengths to 200.',
          'Lean kernel + Mathlib for the algebra part; statements about arbitrary parsed keys that need n·Q = ∞ carry that hypothesis explicitly; tie to C = differential testing.'),
- 'C05': ('Limb-level and group-level theorems about code REGENERATED from the C sources on every run: 5x52 and 10x26 field mul/sqr/normalize/add/mul_int/half/negate exact for all limb values within the documented magnitudes (plus the invariant that keeps the 10x26 normalisation away from finding F4), scalar 4x64 add/negate/mul_512/reduce_512/mul/half/cadd_bit/mul_shift_var, the emulated 128-bit integer, and the group functions of group_impl.h (gej_double, complete gej_add_ge, gej_add_var, gej_add_ge_var, gej_add_zinv_var, ...) proved equal to the affine group law with every magnitude precondition discharged statically; SHA-256 streaming = one-shot for every chunking, tagged hashes, HMAC, RFC 6979; every translated function is also executed against the real one (k_run, f_run) and the whole arithmetic API is compared with the model in four limb/asm configurations (six in the thorough tier).',
-         'Lean kernel + Mathlib; translator tools/c2lean_k.py / c2lean_f.py over clang-14 ASTs (validated by running IR and C function on the same inputs); the value semantics of the group-level IR rests on the limb-level theorems, their composition (argument aliasing inside field primitives) is checked by correspondence only; x86-64 assembly, safegcd modinv, wNAF/Strauss/Pippenger/comb algorithms are tied by correspondence only (with carry-maximising crafted inputs); known finding F4 (10x26 normalisation on the magnitude-32 extreme of fe_get_bounds).'),
+ 'C05': ('Limb-level and group-level theorems about code REGENERATED from the C sources on every run: 5x52 and 10x26 field mul/sqr/normalize/add/mul_int/half/negate exact for all limb values within the documented magnitudes (plus the invariant that keeps the 10x26 normalisation away from finding F4), scalar 4x64 AND 8x32 add/negate/mul_512/reduce_512/mul/half/cadd_bit (4x64 also mul_shift_var for every shift), the emulated 128-bit integer, the square-root addition chain with ge_set_xquad / ge_set_xo_var = the model lift_x, and the group functions of group_impl.h (gej_double, complete gej_add_ge, gej_add_var, gej_add_ge_var, gej_add_zinv_var, ...) proved equal to the affine group law with every magnitude precondition discharged statically; SHA-256 streaming = one-shot for every chunking, tagged hashes, HMAC, RFC 6979; every translated function is also executed against the real one (k_run, f_run) and the whole arithmetic API is compared with the model in four limb/asm configurations (six in the thorough tier).',
+         'Lean kernel + Mathlib; translator tools/c2lean_k.py / c2lean_f.py over clang-14 ASTs (validated by running IR and C function on the same inputs); the value semantics of the group-level IR rests on the limb-level theorems, their composition (argument aliasing inside field primitives) is checked by correspondence only; x86-64 assembly, safegcd modinv, wNAF/Strauss/Pippenger/comb algorithms are tied by correspondence only (with carry-maximising crafted inputs); known findings F4 (10x26 normalisation on the magnitude-32 extreme of fe_get_bounds) and F5 (fe_equal at b magnitude 31).'),
  'C06': ('Leakage-trace non-interference proved for the translated constant-time primitives via a verified taint checker; the compiled binary is observed under valgrind with secrets undefined (own copy of the maintainers\' secret-argument list, several configurations).',
          'Source-level leakage model of the translator; compiler/CPU behaviour outside any Lean model (partial); valgrind observes executed paths only.'),
  'C07': ('Index/length arithmetic and closure (parsed ⇒ valid) of every parser proved on the model; every entry point run under ASan+UBSan+leak detection with callback counters on structured mutations of valid artefacts and random bytes.',
@@ -41,8 +41,8 @@ TEXT = {
          'Lean kernel + Mathlib; `sign` => `verify` proved (no other ring key at infinity), a ring key at infinity never verifies, sign refuses a zero tweaked secret (F2); ring-signature soundness is cryptographic and not claimed; tie to C = differential testing + call-site guard facts.'),
  'C17': ('Incremental aggregation proved equal to one-shot for every split; length and guard theorems; verify unfolded to the spec equation; correspondence over all 2-/3-way splits, buffers, re-encodings (incl. s = n for the empty aggregate).',
          'Lean kernel; completeness needs the group law; tie to C = differential testing.'),
- 'C18': ('ECDH/XDH agreement under the group law; ElligatorSwift map/inverse modelled branch by branch; correspondence incl. all exceptional inputs and BIP-324 vectors.',
-         'Lean kernel + Mathlib; ecmult_const_xonly modelled at spec level; Wycheproof ECDH and BIP-324 vectors enforced against the model.'),
+ 'C18': ('ECDH/XDH agreement under the group law; ElligatorSwift map/inverse modelled branch by branch AND proved equal to the code regenerated from the C sources (xswiftec_frac_var, xswiftec_var, swiftec_var, xswiftec_inv_var, ge_x_on_curve_var, ge_x_frac_on_curve_var as field-level IR: the hand model is a proved transcription); decode onto the curve for every 64-byte string, inverse round trip; correspondence incl. all exceptional inputs; Wycheproof ECDH and BIP-324 vectors binding on the model.',
+         'Lean kernel + Mathlib; field inversion and the Jacobi-symbol squareness test (safegcd) are opaque in the field-level IR (model semantics, tied by correspondence); ecmult_const_xonly modelled at spec level.'),
  'C19': ('Norm-argument prover/verifier, transcript and generator lists modelled; length/guard theorems; correspondence with mutations, scratch sizes, prefix consistency and leak tracking.',
          'Lean kernel + Mathlib; completeness of the norm argument proved for every vector length 2^a, 2^b (generators d·G, or arbitrary valid generators with the order hypothesis made explicit: cofactor 1 is not proved); rho = 0 is accepted by the prover and rejected by the verifier (proved, documented); the internal verifier dereferences a NULL scratch (observation).'),
  'C20': ('No function references writable static storage (theorem re-checked against the object code of the current tree); blinding state machine modelled byte-exactly and proved balanced over all histories; API results compared across random context histories, static context dichotomy, allocation counts, and 2–16 threads under TSan.',
@@ -81,7 +81,7 @@ def main():
                      'kind_free_text': 'Lean 4.33 + Mathlib theorems over an executable model (lean/SecpZkp), translator tools/c2lean.py, C harness + Python generators for the model/implementation correspondence'}],
         'checks': checks,
         'not_applicable': na,
-        'notes': 'See DESIGN.md (section 10 as built). known_findings.json lists genuine defects: fixed F1, F2 (whitelist), F3 (rangeproof rewind); recorded F4 (10x26 normalisation at the magnitude-32 extreme, C05).',
+        'notes': 'See DESIGN.md (section 10 as built). known_findings.json lists genuine defects: fixed F1, F2 (whitelist), F3 (rangeproof rewind); recorded F4 (10x26 normalisation at the magnitude-32 extreme) and F5 (fe_equal at magnitude 31), both C05.',
     }
     json.dump(m, open(os.path.join(ROOT, 'MANIFEST.json'), 'w'), indent=1)
     print('claimed:', [c['property_id'] for c in checks])
